@@ -12,30 +12,40 @@ META = {
                  "Lattice edge generation and the Hamiltonian assembly loops + vm_compute correspondence against "
                  "pennylane.spin on all 11 lattice shapes",
     "design_ref": "DESIGN.md §3 C69",
-    "text": "Kernel-checked theorems (Props/C69.v), for ALL sizes and boundary conditions at neighbour order 1: the "
-            "model's chain edge set is exactly {(i,i+1)} plus (0,n-1) when periodic, its square/rectangle edge set is "
-            "exactly grid adjacency with wrap-around; for every shape/size/order the edge list is duplicate-free with "
-            "ordered endpoints and tags < order; the transverse-Ising / Heisenberg / Hubbard(JW) term lists produced by the "
-            "transcribed accumulation loops are exactly the textbook sums over the model's edge list (one ZZ resp. "
-            "XX,YY,ZZ term per edge with the edge's coupling, one X term per site), and every term is a real multiple of a "
-            "well-formed Pauli word (Hermitian).  Tie: the model is evaluated inside Coq on the same shape/size/boundary/"
-            "order/coupling inputs as the real generate_lattice/Lattice and the real builders (transverse_ising, "
-            "heisenberg, fermi_hubbard, kitaev, spin_hamiltonian) and n_sites, the sorted edge list with tags and the "
-            "sorted exact Pauli term list are compared; direct oracles: networkx grid graphs (chain/square/rectangle), "
-            "textbook sums recomputed from the implementation's own edge list, Hermiticity of qp.matrix(H), lattice_dict "
-            "geometry vs the model's integer table.",
-    "note": "Universally quantified theorems cover chain/square/rectangle at neighbour_order 1 only; the other shapes "
-            "and order 2 are covered per size by the correspondence run and by bounded vm_compute examples (sizes stated "
-            "in Props/C69.v).  Coordinates are modelled exactly (integers in per-axis units 1, 1/2, 1/4, sqrt3/2, sqrt3/4, "
-            "sqrt3/6) so the floating-point KD-tree query with distance_tol=1e-5 and the rounding of distances to 4 "
-            "decimals are replaced by exact comparison of squared distances (valid while distinct distances differ by "
-            "more than 1e-4, true for all built-in shapes at orders <= 3).  The order of lattice.edges depends on the "
-            "KD-tree traversal and is not compared (sorted lists are).  fermi_hubbard is modelled by the closed textbook "
-            "Jordan-Wigner images of hopping and n_up*n_down terms (not through FermiWord/qubit_observable; parity and "
-            "Bravyi-Kitaev mappings not covered); emery and haldane are NOT covered (haldane has irrational complex "
-            "phases); spin_hamiltonian only with XX/YY/ZZ edge operators and single-letter node terms.  Coefficients are "
-            "dyadic rationals (exact in binary floating point).  Hermiticity is stated at the term-list level (real "
-            "coefficient, sorted Pauli word without repeated site) and checked numerically on qp.matrix for small systems.",
+    "text": "13 kernel-checked theorems (Props/C69.v).  For ALL sizes and boundary conditions at neighbour order 1: the "
+            "model's chain edge set is exactly {(i,i+1)} plus (0,n-1) when periodic (with the edge count and irreflexivity "
+            "for n>=2), its square/rectangle edge set is exactly grid adjacency with wrap-around; for EVERY shape/size/"
+            "boundary/order the edge list is duplicate-free with ordered endpoints and tags in [0,order); for every edge "
+            "list and every coupling (per-order vector or per-edge matrix) the transverse-Ising / Heisenberg / Hubbard(JW) "
+            "term lists produced by the transcribed accumulation loops are exactly the textbook comprehensions (0*I, one ZZ "
+            "resp. XX,YY,ZZ term per edge with that edge's coupling, one X term per site), composed for the chain into the "
+            "closed textbook sum (Permutation); every Ising/Heisenberg term is a rational multiple of a well-formed Pauli "
+            "word (Hermitian term by term).  Bounded vm_compute statements: coordination numbers of all regular shapes at "
+            "size 3 (periodic) and edge counts of 13 shape/size/order combinations.  Tie: the model is evaluated inside Coq "
+            "on the same shape/size/boundary/order/coupling inputs as the real generate_lattice/Lattice and the real "
+            "builders (transverse_ising, heisenberg, fermi_hubbard[JW], kitaev, spin_hamiltonian) and n_sites, the sorted "
+            "edge list with tags and the sorted exact Pauli term list are compared; direct oracles on the implementation's "
+            "output: networkx grid graphs (chain/square/rectangle), textbook sums recomputed from lattice.edges, "
+            "Hermiticity of qp.matrix(H) for small systems, real coefficients, endpoints in range, no duplicated edge, "
+            "lattice_dict geometry vs the model's integer table.",
+    "note": "Universally quantified lattice theorems cover chain/square/rectangle at neighbour_order 1 only; the other "
+            "shapes and orders >= 2 are covered per size by the correspondence run and by the bounded vm_compute theorems "
+            "(sizes stated in the statements).  Coordinates are modelled exactly (integers in per-axis units 1, 1/2, 1/4, "
+            "sqrt3/2, sqrt3/4, sqrt3/6) so the floating-point KD-tree query with distance_tol=1e-5 and the rounding of "
+            "distances to 4 decimals are replaced by exact comparison of squared distances.  The neighbour tag is modelled "
+            "as the number of distinct smaller distances present among grid points (incl. hidden periodic images) within "
+            "the cutoff, which is what sorted(dict) yields; the order of lattice.edges depends on the KD-tree traversal "
+            "and is not compared (sorted lists are).  Quirks reproduced by the model, not judged: self-loops when a "
+            "periodic direction has n <= order cells (e.g. 1-site periodic chain: edge (0,0), H gets a -J*I term; networkx "
+            "agrees), tag k means the k-th distance PRESENT in the finite lattice (a 1x3 square strip at order 2 links "
+            "sites at distance 2, not sqrt2), custom node index == n_sites is accepted.  fermi_hubbard is modelled by the "
+            "closed textbook Jordan-Wigner images of hopping and n_up*n_down terms (not through FermiWord / "
+            "qubit_observable; parity and Bravyi-Kitaev mappings not covered; Hermiticity of the Hubbard words only by the "
+            "numeric matrix oracle); emery and haldane are NOT covered (haldane has irrational complex phases); "
+            "spin_hamiltonian/Lattice(custom_edges) only with XX/YY/ZZ edge operators, distinct (operator, coefficient) "
+            "labels and single-letter node terms; add_edge is not covered.  Coefficients are dyadic rationals (exact in "
+            "binary floating point).  Hermiticity is stated at the term-list level (rational coefficient, Pauli word with "
+            "strictly increasing sites), not as a matrix identity.",
     "assumptions": ["distinct exact inter-site distances of the built-in lattices differ by more than 1e-4 (so KD-tree "
                     "tolerance and rounding to 4 decimals act as exact comparison)",
                     "couplings are dyadic rationals of small magnitude, so float arithmetic in the builders is exact"],
@@ -322,7 +332,7 @@ def corpus():
 def run(ctx):
     ctx.coq_props()
     quick = ctx.tier == "quick"
-    n = 260 if quick else 1500
+    n = 220 if quick else 1500
     maxpts = 330 if quick else 700
     rng = ctx.rng
     cases = corpus()
